@@ -55,9 +55,29 @@ for d in sorted(glob.glob(os.path.join(ROOT, "coq", "C[0-9][0-9]"))):
     nlines = sum(len(open(os.path.join(d, f)).read().splitlines()) for f in os.listdir(d) if f.endswith(".v"))
     prow.append("| %s | %d | %d / %d | %s |" % (os.path.basename(d), len(names), nfiles, nlines, ", ".join("`%s`" % n for n in names)))
 t13 = "| property | theorems in Props.v | .v files / lines in coq/Cxx | names |\n|---|---|---|---|\n" + "\n".join(prow)
+# reverts of the repaired defects (tools/revertall.py -> build/revert_regression.json, kept as seeded/_reverts.json)
+rv = None
+for cand in (os.path.join(ROOT, "build", "revert_regression.json"), os.path.join(ROOT, "seeded", "_reverts.json")):
+    if os.path.exists(cand):
+        rv = json.load(open(cand)); break
+if rv:
+    rr = []
+    for r in rv["results"]:
+        if not r.get("applies"):
+            st = "revert no longer applies (later commits rewrote these lines)"
+        else:
+            st = "; ".join("%s: %s%s" % (c, "VIOLATION" if v.get("caught") else "MISSED", " (no-failing-input-found)" if v.get("caught") and v.get("no_failing_input") else "")
+                           for c, v in r.get("checks", {}).items())
+        rr.append("| %s | %s | %s | %s |" % (r["commit"], ",".join(r["properties"]), esc(r.get("subject", "")[5:140]), st))
+    ap = [r for r in rv["results"] if r.get("applies")]
+    t14 = ("On /repo %s: %d fix commits recorded in known_findings.json; %d reverts apply to HEAD; %d of those make the owning check report a VIOLATION again.\n\n"
+           % (rv.get("head", "?"), len(rv["results"]), len(ap), sum(1 for r in ap if r.get("caught")))
+           + "| commit | property | defect repaired | owning check on HEAD with the commit reverted |\n|---|---|---|---|\n" + "\n".join(rr))
+else:
+    t14 = "(not run)"
 p = os.path.join(ROOT, "DESIGN.md")
 s = open(p).read()
-for tag, t in (("FINDINGS", t9), ("SEEDS", t10), ("TRUSTED", t11), ("THEOREMS", t13)):
+for tag, t in (("FINDINGS", t9), ("SEEDS", t10), ("TRUSTED", t11), ("THEOREMS", t13), ("REVERTS", t14)):
     a, b = "<!-- AUTOGEN:%s:BEGIN -->" % tag, "<!-- AUTOGEN:%s:END -->" % tag
     if a in s:
         s = s[:s.index(a) + len(a)] + "\n" + t + "\n" + s[s.index(b):]
